@@ -26,7 +26,7 @@ Proof. intros v [d|id ps d] r k b H; simpl in H; [exists false; tauto|exists tru
 
 Lemma createFirst_wf : forall v s, wf_stream v s -> wf_stream v (stream_createFirstSegment s).
 Proof.
-  intros v s W. destruct W as [W1 W2 W3 W4 W5].
+  intros v s W. destruct W as [W1 W2 W3 W4 W5 W6].
   constructor; simpl; auto. intros _; discriminate.
 Qed.
 
@@ -39,7 +39,7 @@ Lemma rotateParts_wf : forall v i s t s' t',
 Proof.
   intros v i s t s' t' H W. unfold stream_rotateParts in H.
   destruct (nextSegment s) as [ps|] eqn:E; [|discriminate].
-  destruct W as [W1 W2 W3 W4 W5].
+  destruct W as [W1 W2 W3 W4 W5 W6].
   destruct v; inversion H; subst; clear H; simpl;
     (split; [constructor; simpl; auto; intros _; discriminate|]);
     repeat split; eauto.
@@ -106,13 +106,19 @@ Proof.
     rewrite zlen_cons in *.
     destruct (segs_ok_tail _ _ _ _ _ Hok1) as [b' Hok2].
     assert (Htl : tl <> []) by (intro; subst tl; rewrite zlen_nil in Ev; lia).
+    assert (Hlast2 : exists id0 ps0 d0, last tl (Gap 0) = Seg id0 ps0 d0).
+    { exists sid, ps, dur. assert (HL : last (hd :: tl) (Gap 0) = Seg sid ps dur)
+        by (rewrite <- E2; unfold segs1; apply last_last).
+      destruct tl; [congruence|exact HL]. }
     assert (W' : forall td cl, wf_stream v
        {| nextSegmentID := sid + 1; nextPartID := nextPartID s1; segments := tl;
           nextSegment := Some []; segmentDeleteCount := segmentDeleteCount s1 + 1;
           targetDuration := td; s_closed := cl |}).
     { intros; constructor; simpl; try lia; eauto; try congruence; try (intros _; lia). }
     destruct hd; inversion H; subst; (split; [apply W'|simpl; congruence]).
-  - assert (W' : forall td cl, wf_stream v
+  - assert (Hlast1 : exists id0 ps0 d0, last segs1 (Gap 0) = Seg id0 ps0 d0)
+      by (exists sid, ps, dur; unfold segs1; apply last_last).
+    assert (W' : forall td cl, wf_stream v
        {| nextSegmentID := sid + 1; nextPartID := nextPartID s1; segments := segs1;
           nextSegment := Some []; segmentDeleteCount := segmentDeleteCount s1;
           targetDuration := td; s_closed := cl |}).
@@ -122,7 +128,10 @@ Proof.
 Qed.
 
 Lemma close_wf : forall v i s fs, wf_stream v s -> wf_stream v (fst (stream_close i s fs)).
-Proof. intros v i s fs [W1 W2 W3 W4 W5]; constructor; simpl; auto. Qed.
+Proof. intros v i s fs W; exact W. Qed.
+
+Lemma set_closed_wf : forall v s, wf_stream v s -> wf_stream v (stream_set_closed s).
+Proof. intros v s [W1 W2 W3 W4 W5 W6]; constructor; simpl; auto. Qed.
 
 Lemma init_wf : forall v, wf_stream v (stream_init v).
 Proof.
@@ -162,7 +171,7 @@ Lemma copy_targetDuration_wf : forall v lead ss,
 Proof.
   intros v lead ss F. unfold copy_targetDuration. destruct (nth_error ss lead); [|exact F].
   apply Forall_forall. intros x Hin. apply in_map_iff in Hin. destruct Hin as [y [<- Hy]].
-  rewrite Forall_forall in F. destruct (F y Hy) as [W1 W2 W3 W4 W5]. constructor; simpl; auto.
+  rewrite Forall_forall in F. destruct (F y Hy) as [W1 W2 W3 W4 W5 W6]. constructor; simpl; auto.
 Qed.
 
 Lemma Forall_upd_nth : forall A (P : A -> Prop) l i x, Forall P l -> P x -> Forall P (upd_nth l i x).
@@ -210,7 +219,9 @@ Proof.
     inversion H; subst. split; [|auto]. unfold wf_mux; simpl.
     apply copy_targetDuration_wf. eapply rotateSegments_all_wf; eauto.
   - inversion H; subst. split.
-    + apply close_all_wf. exact W.
+    + apply close_all_wf. unfold wf_mux in *. simpl. apply Forall_forall. intros x Hin.
+      apply in_map_iff in Hin. destruct Hin as [y [<- Hy]]. apply set_closed_wf.
+      rewrite Forall_forall in W. auto.
     + unfold close_all. generalize (seq 0 (List.length (m_streams (set_closed m)))).
       assert (G : forall l m0, m_variant (fold_left mux_closeStream l m0) = m_variant m0 /\
                                m_segmentCount (fold_left mux_closeStream l m0) = m_segmentCount m0).
@@ -265,47 +276,24 @@ Qed.
 Lemma ex_in_range : in_range ex_stream.
 Proof. unfold in_range; simpl. reflexivity. Qed.
 
-(* F3a: segment 7 is the last complete one and has parts 0..2; part 3 of it means part 0 of
-   the open segment 8, which exists - the playlist contains it, yet the handler blocks *)
-Lemma ready_complete_refuted_f3a :
-  exists s M P pl, wf_stream LL s /\ in_range s /\
-    generateMediaPlaylistFMP4 LL s false [] = Some pl /\
-    pl_contains pl M P = true /\ decide LL s M P = Block /\ f3a_input s M P = true.
-Proof.
-  exists ex_stream, 7, (Some 3).
-  eexists. split; [apply ex_wf|]. split; [apply ex_in_range|]. vm_compute. auto 10.
-Qed.
+(* the inputs of the repaired defects F3a, F3b, F11 on this state: part 3 of segment 7 (past
+   its end: part 0 of the open segment 8, which exists) and the listed gap 3 are answered;
+   segment 8 without a part index waits for the complete segment *)
+Lemma ex_former_findings :
+  decide LL ex_stream 7 (Some 3) = Ready /\ decide LL ex_stream 3 None = Ready /\
+  decide LL ex_stream 3 (Some 5) = Ready /\ decide LL ex_stream 8 None = Block.
+Proof. vm_compute. auto. Qed.
 
-(* F3b: media sequence number 3 is a listed gap: the handler blocks (until it expires) *)
-Lemma ready_complete_refuted_f3b :
-  exists s M P pl, wf_stream LL s /\ in_range s /\
-    generateMediaPlaylistFMP4 LL s false [] = Some pl /\
-    pl_contains pl M P = true /\ decide LL s M P = Block /\ f3b_input s M = true.
-Proof.
-  exists ex_stream, 3, None.
-  eexists. split; [apply ex_wf|]. split; [apply ex_in_range|]. vm_compute. auto 10.
-Qed.
-
-(* F11: _HLS_msn=8 (the open segment) without _HLS_part is answered although segment 8 is
-   not complete *)
-Lemma ready_sound_refuted_f11 :
-  exists s M pl, wf_stream LL s /\ in_range s /\
-    decide LL s M None = Ready /\
-    generateMediaPlaylistFMP4 LL s false [] = Some pl /\ pl_contains pl M None = false.
-Proof.
-  exists ex_stream, 8.
-  eexists. split; [apply ex_wf|]. split; [apply ex_in_range|]. vm_compute. auto 10.
-Qed.
-
-(* hypotheses of the partial theorems are satisfiable: a blocking request that is Ready, one
-   that Blocks, one that is rejected *)
-Lemma ex_ready : decide LL ex_stream 8 (Some 0) = Ready /\ f11_input ex_stream 8 (Some 0) = false.
+(* hypotheses of the theorems are satisfiable: a blocking request that is Ready, one that
+   Blocks, one that is rejected *)
+Lemma ex_ready : decide LL ex_stream 8 (Some 0) = Ready.
 Proof. vm_compute. auto. Qed.
 
 Lemma ex_contained :
   exists pl, generateMediaPlaylistFMP4 LL ex_stream false [] = Some pl /\
-             pl_contains pl 7 (Some 1) = true /\ f3a_input ex_stream 7 (Some 1) = false /\
-             f3b_input ex_stream 7 = false /\ decide LL ex_stream 7 (Some 1) = Ready.
+             pl_contains pl 7 (Some 1) = true /\ pl_contains pl 7 (Some 3) = true /\
+             pl_contains pl 3 None = true /\ pl_contains pl 8 None = false /\
+             decide LL ex_stream 7 (Some 1) = Ready.
 Proof. eexists. vm_compute. auto 10. Qed.
 
 Lemma ex_reject : decide LL ex_stream 10 None = Respond400 /\ decide LL ex_stream 1 None = Respond400
